@@ -240,7 +240,7 @@ def run_check(modname, tier, seed, argv=()):
 
 def finish(mod, prop, tier, seed, t0, insts, results, skipped, known, pre):
     tot = dict(paths=0, decisions=0, solver_calls=0, solver_s=0.0, aborted=0, infeasible=0,
-               obligations=0, cvc5_crosschecked=0, cvc5_inconclusive=0)
+               obligations=0, cvc5_crosschecked=0, cvc5_inconclusive=0, cvc5_disagreements=0)
     labels, witness, functions = set(), set(), set()
     abort_reasons = {}
     incomplete, crashes, val_errors = [], [], []
@@ -332,6 +332,7 @@ def finish(mod, prop, tier, seed, t0, insts, results, skipped, known, pre):
             queries=tot["solver_calls"], solver_s=round(tot["solver_s"], 2),
             aborted_paths=tot["aborted"], infeasible_paths=tot["infeasible"],
             cvc5_crosschecked=tot["cvc5_crosschecked"], cvc5_no_answer=tot["cvc5_inconclusive"],
+            cvc5_disagreements=tot["cvc5_disagreements"],
             functions_executed=sorted(functions),
             bounds=getattr(mod, "BOUNDS", {}).get(tier, getattr(mod, "BOUNDS", {})),
             stubs=getattr(mod, "STUBS", []),
@@ -349,6 +350,9 @@ def finish(mod, prop, tier, seed, t0, insts, results, skipped, known, pre):
     print(f"{prop} [{tier}] instances={len(results)}/{len(insts)} paths={tot['paths']} decisions={tot['decisions']} "
           f"obligations={tot['obligations']} queries={tot['solver_calls']} solver_s={tot['solver_s']:.1f} "
           f"validated={validated} aborted={tot['aborted']} known={len(known_hits)} violations={nviol} wall={wall:.1f}s")
+    if tot["cvc5_disagreements"]:
+        print(f"NOTE property={prop}: cvc5 disagreed with z3 on {tot['cvc5_disagreements']} sampled obligation quer(y/ies) "
+              "(recorded in the evidence; set VERIF_CVC5_STRICT=1 to make this fatal)")
     if rc == 0 and problems:
         for p in problems:
             print(f"INCONCLUSIVE property={prop}: {p}")
